@@ -786,170 +786,170 @@ package ring
 //@ spec ringwf(r) = 0 <= r.level && r.level < len(r.SubRings)
 
 //@ func Ring.Add
-//@   property C01
+//@   property C01 C09
 //@   requires ringwf(r) && r.level < len(p1.Coeffs) && r.level < len(p2.Coeffs) && r.level < len(p3.Coeffs)
 //@   rowloop 0 i 0 r.level+1 out=p3
 //@   rowcall SubRing.Add(r.SubRings[i], p1.Coeffs[i], p2.Coeffs[i], p3.Coeffs[i])
 
 //@ func Ring.AddLazy
-//@   property C01
+//@   property C01 C09
 //@   requires ringwf(r) && r.level < len(p1.Coeffs) && r.level < len(p2.Coeffs) && r.level < len(p3.Coeffs)
 //@   rowloop 0 i 0 r.level+1 out=p3
 //@   rowcall SubRing.AddLazy(r.SubRings[i], p1.Coeffs[i], p2.Coeffs[i], p3.Coeffs[i])
 
 //@ func Ring.Sub
-//@   property C01
+//@   property C01 C09
 //@   requires ringwf(r) && r.level < len(p1.Coeffs) && r.level < len(p2.Coeffs) && r.level < len(p3.Coeffs)
 //@   rowloop 0 i 0 r.level+1 out=p3
 //@   rowcall SubRing.Sub(r.SubRings[i], p1.Coeffs[i], p2.Coeffs[i], p3.Coeffs[i])
 
 //@ func Ring.SubLazy
-//@   property C01
+//@   property C01 C09
 //@   requires ringwf(r) && r.level < len(p1.Coeffs) && r.level < len(p2.Coeffs) && r.level < len(p3.Coeffs)
 //@   rowloop 0 i 0 r.level+1 out=p3
 //@   rowcall SubRing.SubLazy(r.SubRings[i], p1.Coeffs[i], p2.Coeffs[i], p3.Coeffs[i])
 
 //@ func Ring.Neg
-//@   property C01
+//@   property C01 C09
 //@   requires ringwf(r) && r.level < len(p1.Coeffs) && r.level < len(p2.Coeffs)
 //@   rowloop 0 i 0 r.level+1 out=p2
 //@   rowcall SubRing.Neg(r.SubRings[i], p1.Coeffs[i], p2.Coeffs[i])
 
 //@ func Ring.Reduce
-//@   property C01
+//@   property C01 C09
 //@   requires ringwf(r) && r.level < len(p1.Coeffs) && r.level < len(p2.Coeffs)
 //@   rowloop 0 i 0 r.level+1 out=p2
 //@   rowcall SubRing.Reduce(r.SubRings[i], p1.Coeffs[i], p2.Coeffs[i])
 
 //@ func Ring.ReduceLazy
-//@   property C01
+//@   property C01 C09
 //@   requires ringwf(r) && r.level < len(p1.Coeffs) && r.level < len(p2.Coeffs)
 //@   rowloop 0 i 0 r.level+1 out=p2
 //@   rowcall SubRing.ReduceLazy(r.SubRings[i], p1.Coeffs[i], p2.Coeffs[i])
 
 //@ func Ring.MulCoeffsBarrett
-//@   property C01
+//@   property C01 C09
 //@   requires ringwf(r) && r.level < len(p1.Coeffs) && r.level < len(p2.Coeffs) && r.level < len(p3.Coeffs)
 //@   rowloop 0 i 0 r.level+1 out=p3
 //@   rowcall SubRing.MulCoeffsBarrett(r.SubRings[i], p1.Coeffs[i], p2.Coeffs[i], p3.Coeffs[i])
 
 //@ func Ring.MulCoeffsBarrettLazy
-//@   property C01
+//@   property C01 C09
 //@   requires ringwf(r) && r.level < len(p1.Coeffs) && r.level < len(p2.Coeffs) && r.level < len(p3.Coeffs)
 //@   rowloop 0 i 0 r.level+1 out=p3
 //@   rowcall SubRing.MulCoeffsBarrettLazy(r.SubRings[i], p1.Coeffs[i], p2.Coeffs[i], p3.Coeffs[i])
 
 //@ func Ring.MulCoeffsBarrettThenAdd
-//@   property C01
+//@   property C01 C09
 //@   requires ringwf(r) && r.level < len(p1.Coeffs) && r.level < len(p2.Coeffs) && r.level < len(p3.Coeffs)
 //@   rowloop 0 i 0 r.level+1 out=p3
 //@   rowcall SubRing.MulCoeffsBarrettThenAdd(r.SubRings[i], p1.Coeffs[i], p2.Coeffs[i], p3.Coeffs[i])
 
 //@ func Ring.MulCoeffsBarrettThenAddLazy
-//@   property C01
+//@   property C01 C09
 //@   requires ringwf(r) && r.level < len(p1.Coeffs) && r.level < len(p2.Coeffs) && r.level < len(p3.Coeffs)
 //@   rowloop 0 i 0 r.level+1 out=p3
 //@   rowcall SubRing.MulCoeffsBarrettThenAddLazy(r.SubRings[i], p1.Coeffs[i], p2.Coeffs[i], p3.Coeffs[i])
 
 //@ func Ring.MulCoeffsMontgomery
-//@   property C01
+//@   property C01 C09
 //@   requires ringwf(r) && r.level < len(p1.Coeffs) && r.level < len(p2.Coeffs) && r.level < len(p3.Coeffs)
 //@   rowloop 0 i 0 r.level+1 out=p3
 //@   rowcall SubRing.MulCoeffsMontgomery(r.SubRings[i], p1.Coeffs[i], p2.Coeffs[i], p3.Coeffs[i])
 
 //@ func Ring.MulCoeffsMontgomeryLazy
-//@   property C01
+//@   property C01 C09
 //@   requires ringwf(r) && r.level < len(p1.Coeffs) && r.level < len(p2.Coeffs) && r.level < len(p3.Coeffs)
 //@   rowloop 0 i 0 r.level+1 out=p3
 //@   rowcall SubRing.MulCoeffsMontgomeryLazy(r.SubRings[i], p1.Coeffs[i], p2.Coeffs[i], p3.Coeffs[i])
 
 //@ func Ring.MulCoeffsMontgomeryLazyThenNeg
-//@   property C01
+//@   property C01 C09
 //@   requires ringwf(r) && r.level < len(p1.Coeffs) && r.level < len(p2.Coeffs) && r.level < len(p3.Coeffs)
 //@   rowloop 0 i 0 r.level+1 out=p3
 //@   rowcall SubRing.MulCoeffsMontgomeryLazyThenNeg(r.SubRings[i], p1.Coeffs[i], p2.Coeffs[i], p3.Coeffs[i])
 
 //@ func Ring.MulCoeffsMontgomeryThenAdd
-//@   property C01
+//@   property C01 C09
 //@   requires ringwf(r) && r.level < len(p1.Coeffs) && r.level < len(p2.Coeffs) && r.level < len(p3.Coeffs)
 //@   rowloop 0 i 0 r.level+1 out=p3
 //@   rowcall SubRing.MulCoeffsMontgomeryThenAdd(r.SubRings[i], p1.Coeffs[i], p2.Coeffs[i], p3.Coeffs[i])
 
 //@ func Ring.MulCoeffsMontgomeryThenAddLazy
-//@   property C01
+//@   property C01 C09
 //@   requires ringwf(r) && r.level < len(p1.Coeffs) && r.level < len(p2.Coeffs) && r.level < len(p3.Coeffs)
 //@   rowloop 0 i 0 r.level+1 out=p3
 //@   rowcall SubRing.MulCoeffsMontgomeryThenAddLazy(r.SubRings[i], p1.Coeffs[i], p2.Coeffs[i], p3.Coeffs[i])
 
 //@ func Ring.MulCoeffsMontgomeryLazyThenAddLazy
-//@   property C01
+//@   property C01 C09
 //@   requires ringwf(r) && r.level < len(p1.Coeffs) && r.level < len(p2.Coeffs) && r.level < len(p3.Coeffs)
 //@   rowloop 0 i 0 r.level+1 out=p3
 //@   rowcall SubRing.MulCoeffsMontgomeryLazyThenAddLazy(r.SubRings[i], p1.Coeffs[i], p2.Coeffs[i], p3.Coeffs[i])
 
 //@ func Ring.MulCoeffsMontgomeryThenSub
-//@   property C01
+//@   property C01 C09
 //@   requires ringwf(r) && r.level < len(p1.Coeffs) && r.level < len(p2.Coeffs) && r.level < len(p3.Coeffs)
 //@   rowloop 0 i 0 r.level+1 out=p3
 //@   rowcall SubRing.MulCoeffsMontgomeryThenSub(r.SubRings[i], p1.Coeffs[i], p2.Coeffs[i], p3.Coeffs[i])
 
 //@ func Ring.MulCoeffsMontgomeryThenSubLazy
-//@   property C01
+//@   property C01 C09
 //@   requires ringwf(r) && r.level < len(p1.Coeffs) && r.level < len(p2.Coeffs) && r.level < len(p3.Coeffs)
 //@   rowloop 0 i 0 r.level+1 out=p3
 //@   rowcall SubRing.MulCoeffsMontgomeryThenSubLazy(r.SubRings[i], p1.Coeffs[i], p2.Coeffs[i], p3.Coeffs[i])
 
 //@ func Ring.MulCoeffsMontgomeryLazyThenSubLazy
-//@   property C01
+//@   property C01 C09
 //@   requires ringwf(r) && r.level < len(p1.Coeffs) && r.level < len(p2.Coeffs) && r.level < len(p3.Coeffs)
 //@   rowloop 0 i 0 r.level+1 out=p3
 //@   rowcall SubRing.MulCoeffsMontgomeryLazyThenSubLazy(r.SubRings[i], p1.Coeffs[i], p2.Coeffs[i], p3.Coeffs[i])
 
 //@ func Ring.AddScalar
-//@   property C01
+//@   property C01 C09
 //@   requires ringwf(r) && r.level < len(p1.Coeffs) && r.level < len(p2.Coeffs)
 //@   rowloop 0 i 0 r.level+1 out=p2
 //@   rowcall SubRing.AddScalar(r.SubRings[i], p1.Coeffs[i], scalar, p2.Coeffs[i])
 
 //@ func Ring.SubScalar
-//@   property C01
+//@   property C01 C09
 //@   requires ringwf(r) && r.level < len(p1.Coeffs) && r.level < len(p2.Coeffs)
 //@   rowloop 0 i 0 r.level+1 out=p2
 //@   rowcall SubRing.SubScalar(r.SubRings[i], p1.Coeffs[i], scalar, p2.Coeffs[i])
 
 //@ func Ring.MForm
-//@   property C01
+//@   property C01 C09
 //@   requires ringwf(r) && r.level < len(p1.Coeffs) && r.level < len(p2.Coeffs)
 //@   rowloop 0 i 0 r.level+1 out=p2
 //@   rowcall SubRing.MForm(r.SubRings[i], p1.Coeffs[i], p2.Coeffs[i])
 
 //@ func Ring.MFormLazy
-//@   property C01
+//@   property C01 C09
 //@   requires ringwf(r) && r.level < len(p1.Coeffs) && r.level < len(p2.Coeffs)
 //@   rowloop 0 i 0 r.level+1 out=p2
 //@   rowcall SubRing.MFormLazy(r.SubRings[i], p1.Coeffs[i], p2.Coeffs[i])
 
 //@ func Ring.IMForm
-//@   property C01
+//@   property C01 C09
 //@   requires ringwf(r) && r.level < len(p1.Coeffs) && r.level < len(p2.Coeffs)
 //@   rowloop 0 i 0 r.level+1 out=p2
 //@   rowcall SubRing.IMForm(r.SubRings[i], p1.Coeffs[i], p2.Coeffs[i])
 
 //@ func Ring.MulByVectorMontgomery
-//@   property C01
+//@   property C01 C09
 //@   requires ringwf(r) && r.level < len(p1.Coeffs) && r.level < len(p2.Coeffs)
 //@   rowloop 0 i 0 r.level+1 out=p2
 //@   rowcall SubRing.MulCoeffsMontgomery(r.SubRings[i], p1.Coeffs[i], vector, p2.Coeffs[i])
 
 //@ func Ring.MulByVectorMontgomeryThenAddLazy
-//@   property C01
+//@   property C01 C09
 //@   requires ringwf(r) && r.level < len(p1.Coeffs) && r.level < len(p2.Coeffs)
 //@   rowloop 0 i 0 r.level+1 out=p2
 //@   rowcall SubRing.MulCoeffsMontgomeryThenAddLazy(r.SubRings[i], p1.Coeffs[i], vector, p2.Coeffs[i])
 
 // scalar products: the scalar is brought to Montgomery form per modulus; the result is the exact product (no Montgomery factor left)
 //@ func Ring.MulScalar
-//@   property C01
+//@   property C01 C09
 //@   requires ringwf(r) && r.level < len(p1.Coeffs) && r.level < len(p2.Coeffs)
 //@   rowloop 0 i 0 r.level+1 out=p2
 //@   let q = r.SubRings[i].Modulus
@@ -961,7 +961,7 @@ package ring
 //@   rowpost forall(k, 0, len(p1.Coeffs[i]), p2.Coeffs[i][k] < q && cong(p2.Coeffs[i][k], old(p1.Coeffs[i][k]) * scalar, q)) by cong_scale(sm, scalar*W, old(p1.Coeffs[i][k]), q); cong_trans(p2.Coeffs[i][k]*W, old(p1.Coeffs[i][k])*sm, old(p1.Coeffs[i][k])*scalar*W, q); cong_cancelW(p2.Coeffs[i][k], old(p1.Coeffs[i][k])*scalar, mc, (q*mc)/W, q)
 
 //@ func Ring.MulScalarThenAdd
-//@   property C01
+//@   property C01 C09
 //@   requires ringwf(r) && r.level < len(p1.Coeffs) && r.level < len(p2.Coeffs)
 //@   rowloop 0 i 0 r.level+1 out=p2
 //@   let q = r.SubRings[i].Modulus
@@ -977,7 +977,7 @@ package ring
 
 // p2 - p1*scalar: the scalar is reduced, negated, brought to Montgomery form, then multiplied and added
 //@ func Ring.MulScalarThenSub
-//@   property C01
+//@   property C01 C09
 //@   requires ringwf(r) && r.level < len(p1.Coeffs) && r.level < len(p2.Coeffs)
 //@   rowloop 0 i 0 r.level+1 out=p2
 //@   let q = r.SubRings[i].Modulus
@@ -995,8 +995,64 @@ package ring
 //@   rowpost forall(k, 0, len(p1.Coeffs[i]), y < q && cong(y, z - x * scalar, q)) by cong_neg(t, scalar, q); cong_shift(0 - t, 0 - scalar, 1, q); cong_scale(u, 0 - scalar, W, q); cong_trans(sm, u*W, 0 - scalar*W, q); cong_scale(sm, 0 - scalar*W, x, q); cong_refl(z*W, q); cong_add(z*W, z*W, x*sm, 0 - x*scalar*W, q); cong_trans(y*W, z*W + x*sm, z*W - x*scalar*W, q); cong_cancelW(y, z - x*scalar, mc, (q*mc)/W, q)
 
 //@ func Ring.MulRNSScalarMontgomery
-//@   property C01
+//@   property C01 C09
 //@   requires ringwf(r) && r.level < len(p1.Coeffs) && r.level < len(p2.Coeffs) && r.level < len(scalar)
 //@   rowloop 0 i 0 r.level+1 out=p2
 //@   rowpre disjoint(scalar, p2.Coeffs[i])
 //@   rowcall SubRing.MulScalarMontgomery(r.SubRings[i], p1.Coeffs[i], scalar[i], p2.Coeffs[i])
+
+// ==== division by the last modulus (ring/scaling.go), properties C02 (values) and C09 (frame) ====
+// rescale constants: RescaleConstants[L-1][i] = -q_L^{-1} * 2^64 mod q_i
+//@ func Ring.DivFloorByLastModulus
+//@   property C02 C09
+//@   requires 1 <= r.level && r.level < len(r.SubRings) && r.level < len(p0.Coeffs) && r.level <= len(p1.Coeffs)
+//@   requires r.level <= len(r.RescaleConstants) && r.level <= len(r.RescaleConstants[r.level-1])
+//@   rowloop 0 i 0 r.level out=p1
+//@   let L = r.level
+//@   let q = r.SubRings[i].Modulus
+//@   let qL = r.SubRings[L].Modulus
+//@   let mc = r.SubRings[i].MRedConstant
+//@   let rc = r.RescaleConstants[L-1][i]
+//@   let n = len(p0.Coeffs[L])
+//@   let aL = old(p0.Coeffs[L][k])
+//@   let ai = old(p0.Coeffs[i][k])
+//@   let y = p1.Coeffs[i][k]
+//@   rowpre mredpre(q, mc) && q < 1<<62 && qL < 1<<62 && rc < q && cong(rc * qL, 0 - W, q)
+//@   rowpre n % 8 == 0 && len(p0.Coeffs[i]) >= n && len(p1.Coeffs[i]) >= n
+//@   rowpre sameOrDisjoint(p1.Coeffs[i][0:n], p0.Coeffs[i][0:n]) && disjoint(p1.Coeffs[i][0:n], p0.Coeffs[L][0:n])
+//@   rowpre disjoint(r.RescaleConstants[L-1], p1.Coeffs[i][0:n])
+//@   rowpre forall(k, 0, n, p0.Coeffs[L][k] < qL && p0.Coeffs[i][k] < q)
+//@   rowpost forall(k, 0, n, y < q && cong(y * qL, ai - aL, q)) by cong_scale(y*W, (aL - ai)*rc, qL, q); cong_scale(rc*qL, 0 - W, aL - ai, q); cong_trans(y*W*qL, (aL - ai)*rc*qL, (ai - aL)*W, q); cong_cancelW(y*qL, ai - aL, mc, (q*mc)/W, q)
+
+// rounded division: the last row is centred by (q_L-1)/2 first, so the quotient is rounded half-up
+//@ func Ring.DivRoundByLastModulus
+//@   property C02 C09
+//@   requires 1 <= r.level && r.level < len(r.SubRings) && r.level < len(p0.Coeffs) && r.level <= len(p1.Coeffs)
+//@   requires r.level <= len(r.RescaleConstants) && r.level <= len(r.RescaleConstants[r.level-1])
+//@   let L = r.level
+//@   let qL = r.SubRings[L].Modulus
+//@   let half = (qL - 1) / 2
+//@   let n = len(p0.Coeffs[L])
+//@   requires 2 < qL && qL < 1<<62 && n % 8 == 0
+//@   requires forall(k, 0, n, p0.Coeffs[L][k] < qL)
+//@   requires forall(j, 0, r.level, disjoint(p1.Coeffs[j], p0.Coeffs[L]))
+//@   assigns p0.Coeffs[r.level]
+//@   ensures forall(k, 0, n, p0.Coeffs[L][k] == old(p0.Coeffs[L][k]))
+//@   rowloop 0 i 0 r.level out=p1
+//@   let q = r.SubRings[i].Modulus
+//@   let mc = r.SubRings[i].MRedConstant
+//@   let bc = r.SubRings[i].BRedConstant
+//@   let rc = r.RescaleConstants[L-1][i]
+//@   let aL = old(p0.Coeffs[L][k])
+//@   let ai = old(p0.Coeffs[i][k])
+//@   let y = p1.Coeffs[i][k]
+//@   let h = BRedAdd(half, q, bc)
+//@   let cL = CRed(aL + half, qL)
+//@   rowpre mredpre(q, mc) && bredpre(q, bc[0], bc[1]) && q < 1<<62 && rc < q && cong(rc * qL, 0 - W, q)
+//@   rowpre len(p0.Coeffs[i]) == n && len(p1.Coeffs[i]) >= n
+//@   rowpre sameOrDisjoint(p1.Coeffs[i][0:n], p0.Coeffs[i][0:n]) && disjoint(p1.Coeffs[i], p0.Coeffs[L]) && disjoint(p0.Coeffs[i][0:n], p0.Coeffs[L][0:n])
+//@   rowpre disjoint(r.RescaleConstants[L-1], p1.Coeffs[i][0:n]) && disjoint(r.RescaleConstants[L-1], p0.Coeffs[i][0:n])
+//@   rowpre forall(k, 0, n, p0.Coeffs[i][k] < q)
+//@   rowcut forall(k, 0, n, p0.Coeffs[L][k] == cL)
+//@   rowcut forall(k, 0, n, y == MRed(cL + (q - h) + 2*q - ai, rc, q, mc) && y < q && cong(y*W, (cL + (q - h) + 2*q - ai)*rc, q))
+//@   rowpost forall(k, 0, n, y < q && cong(y * qL, ai - cL + half, q)) by cong_neg(h, half, q); cong_shift(0 - h, 0 - half, 1, q); cong_refl(cL - ai, q); cong_add(cL - ai, cL - ai, q - h, 0 - half, q); cong_shift(cL - ai + q - h, cL - ai - half, 2, q); cong_scale(cL + (q - h) + 2*q - ai, cL - ai - half, rc, q); cong_trans(y*W, (cL + (q - h) + 2*q - ai)*rc, (cL - ai - half)*rc, q); cong_scale(y*W, (cL - ai - half)*rc, qL, q); cong_scale(rc*qL, 0 - W, cL - ai - half, q); cong_trans(y*W*qL, (cL - ai - half)*rc*qL, (ai - cL + half)*W, q); cong_cancelW(y*qL, ai - cL + half, mc, (q*mc)/W, q)
